@@ -1,4 +1,50 @@
-pub fn run(_args: &[String]) -> i32 {
-    eprintln!("not implemented");
-    2
+use std::time::Duration;
+
+use compiler::tast::Ty;
+use serde_json::{Value, json};
+
+use crate::util::{Guarded, emit, guarded, read_requests, strip_repo};
+
+/// request: {"id":.., "fn": "go_ident"|"encode_ty"|"go_type_name_for"|"ty_compact"|"trait_impl_fn_name"|"inherent_method_fn_name"
+///            |"ref_struct_name"|"array_helper_fn_name"|"ref_helper_fn_name", "s": string?, "ty": <serde Ty>?, "trait": string?, "method": string?, "prefix": string?}
+/// answer : {"id", "out": string} | {"id","panic":..}
+pub fn run(args: &[String]) -> i32 {
+    for req in read_requests(args) {
+        let id = req.get("id").cloned().unwrap_or(Value::Null);
+        let r = guarded(Duration::from_secs(5), move || {
+            let f = req["fn"].as_str().unwrap_or("");
+            let ty: Option<Ty> = req.get("ty").and_then(|t| serde_json::from_value(t.clone()).ok());
+            let s = req.get("s").and_then(|x| x.as_str()).unwrap_or("").to_string();
+            let m = req.get("method").and_then(|x| x.as_str()).unwrap_or("m").to_string();
+            let tr = req.get("trait").and_then(|x| x.as_str()).unwrap_or("Tr").to_string();
+            let prefix = req.get("prefix").and_then(|x| x.as_str()).unwrap_or("array_get").to_string();
+            let need_ty = || ty.clone().ok_or_else(|| "missing or undecodable ty".to_string());
+            let out: Result<String, String> = match f {
+                "go_ident" => Ok(compiler::go::mangle::go_ident(&s)),
+                "encode_ty" => need_ty().map(|t| compiler::go::mangle::encode_ty(&t)),
+                "go_type_name_for" => need_ty().map(|t| compiler::go::goast::go_type_name_for(&t)),
+                "ty_compact" => need_ty().map(|t| compiler::names::ty_compact(&t)),
+                "trait_impl_fn_name" => need_ty().map(|t| {
+                    compiler::names::trait_impl_fn_name(&compiler::tast::TastIdent(tr.clone()), &t, &m)
+                }),
+                "inherent_method_fn_name" => need_ty().map(|t| compiler::names::inherent_method_fn_name(&t, &m)),
+                "ref_struct_name" => need_ty().map(|t| compiler::go::goast::ref_struct_name(&t)),
+                "array_helper_fn_name" => need_ty().map(|t| compiler::go::runtime::array_helper_fn_name(&prefix, &t)),
+                "ref_helper_fn_name" => need_ty().map(|t| compiler::go::runtime::ref_helper_fn_name(&prefix, &t)),
+                other => Err(format!("unknown fn {other}")),
+            };
+            match out {
+                Ok(o) => json!({"out": o}),
+                Err(e) => json!({"error": e}),
+            }
+        });
+        let mut out = match r {
+            Guarded::Done(v) => v,
+            Guarded::Panic { msg, at } => json!({"panic": msg, "at": strip_repo(&at)}),
+            Guarded::Timeout => json!({"timeout": true}),
+        };
+        out["id"] = id;
+        emit(&out);
+    }
+    0
 }
